@@ -49,7 +49,7 @@ SCRIPTS = {
 
 def build(root):
     c = Container(root)
-    c.init_container(pack_size_target=40)
+    c.init_container(pack_size_target=60)      # pack 0 is partly filled at the start: it grows later (and then a new pack starts)
     c.add_objects_to_pack([P1])
     c.add_objects_to_pack([Z], compress=True)
     c.add_object(L1)
